@@ -17,6 +17,7 @@ import (
 	"net/http/httptest"
 	"strings"
 	"sync"
+	"time"
 
 	"verif/harness/hk"
 )
@@ -97,7 +98,7 @@ func (r *recorder) RoundTrip(req *http.Request) (*http.Response, error) {
 		return nil, errors.New("dial tcp 127.0.0.1:9: connect: connection refused (injected)")
 	case env == "dropNotif" && label == "notifications/initialized":
 		return nil, errors.New("write tcp 127.0.0.1:9: connection reset by peer (injected)")
-	case env == "http500" && label == "initialize":
+	case (env == "http500" && label == "initialize") || (env == "del500" && label == "DELETE"):
 		return &http.Response{Status: "500 Internal Server Error", StatusCode: 500, Proto: "HTTP/1.1", ProtoMajor: 1, ProtoMinor: 1,
 			Header: http.Header{"Content-Type": {"text/plain"}}, Body: io.NopCloser(strings.NewReader("injected failure")), Request: req}, nil
 	}
@@ -206,6 +207,13 @@ func newFakeSSE() *httptest.Server {
 		f.streams[id] = ch
 		f.mu.Unlock()
 		defer func() { f.mu.Lock(); delete(f.streams, id); f.mu.Unlock() }()
+		// the harness can end the stream of one client under test from the server side (breakSSEStream)
+		brk := &sseBreak{kill: make(chan struct{}), done: make(chan struct{})}
+		if tag := r.Header.Get(tagHeader); tag != "" {
+			sseBreaks.Store(tag, brk)
+			defer sseBreaks.CompareAndDelete(tag, brk)
+		}
+		defer close(brk.done)
 		w.Header().Set("Content-Type", "text/event-stream")
 		w.Header().Set("Cache-Control", "no-cache")
 		w.WriteHeader(200)
@@ -214,6 +222,8 @@ func newFakeSSE() *httptest.Server {
 		for {
 			select {
 			case <-r.Context().Done():
+				return
+			case <-brk.kill:
 				return
 			case m := <-ch:
 				fmt.Fprintf(w, "event: message\ndata: %s\n\n", m)
@@ -244,6 +254,29 @@ func newFakeSSE() *httptest.Server {
 	ts.Config.ErrorLog = hk.QuietStdLog()
 	ts.Start()
 	return ts
+}
+
+type sseBreak struct {
+	kill, done chan struct{}
+	once       sync.Once
+}
+
+var sseBreaks sync.Map // client tag -> *sseBreak of its open event stream
+
+// breakSSEStream makes the fake legacy-SSE server end the event stream of the tagged client and waits (ceiling 5 s) until
+// the handler has returned, i.e. the response is finished.  false = that client has no open stream.
+func breakSSEStream(tag string) bool {
+	v, ok := sseBreaks.Load(tag)
+	if !ok {
+		return false
+	}
+	b := v.(*sseBreak)
+	b.once.Do(func() { close(b.kill) })
+	select {
+	case <-b.done:
+	case <-time.After(5 * time.Second):
+	}
+	return true
 }
 
 func newClientPool() *http.Transport {
